@@ -427,7 +427,7 @@ fn inject_kind_error(prog: &mut Program, t: &mut Tape) -> Option<&'static str> {
 }
 
 /// Other rejections, for the metamorphic part: unbound use, duplicate declaration.
-fn inject_scope_error(prog: &mut Program, t: &mut Tape) -> Option<&'static str> {
+pub fn inject_scope_error(prog: &mut Program, t: &mut Tape) -> Option<&'static str> {
     if t.chance(1, 2) {
         let mut count = 0;
         prog.visit_exprs(&mut |e| {
